@@ -216,6 +216,20 @@ function hdump(o){
   var ks = Reflect.ownKeys(o), out = [];
   for (var i = 0; i < ks.length; i++) out.push(hcanon(ks[i]) + ":" + hdesc(Reflect.getOwnPropertyDescriptor(o, ks[i])));
   return "ext=" + Reflect.isExtensible(o) + " proto=" + hcanon(Reflect.getPrototypeOf(o)) + " {" + out.join(" ") + "}"; }
+/* A property of the SPEC, not a finding: a forwarding proxy over an Array is NOT transparent for
+   defineProperty("length", {value: v, ...}) when the length ends up non-writable and v is not SameValue to
+   ToUint32(v) (e.g. -0, "3"): ArraySetLength (10.4.2.4) stores ToUint32(v), while the proxy's post-trap check
+   (10.5.6 step 15/16, IsCompatiblePropertyDescriptor) compares the ORIGINAL Desc.[[Value]] with the stored
+   non-writable, non-configurable value and must throw TypeError (node does the same).  The target has been
+   updated by the trap, so both sides stay in the same state.  Exactly this case is exempted. */
+function lenNormExempt(kind, A, op, ra, rp){
+  if (kind !== "array" || op.o !== "define" || HKEYS[op.k|0] !== "length" || !op.d || !("value" in op.d)) return false;
+  var v = HVALS[op.d.value];
+  if (typeof v === "object" || typeof v === "symbol") return false;
+  var n = Number(v), u = n >>> 0;
+  if (u !== n || Object.is(v, u)) return false; /* RangeError on both sides, or nothing to normalise */
+  var d = Reflect.getOwnPropertyDescriptor(A, "length");
+  return d.writable === false && (ra === "T" || ra === "ok") && rp === "TypeError"; }
 function runHist(cs, mkGo){
   var c = JSON.parse(cs);
   var A = hmk(c.target), B = hmk(c.target), inner = [B], P = B;
@@ -232,11 +246,12 @@ function runHist(cs, mkGo){
     if (x === String.prototype) return "StrP";
     return typeof x === "function" ? "fn?" : "obj?"; };
   hdump(A); hdump(B); /* warm-up: lazy function properties */
-  var da = [], dp = [], ok = [], firstDiff = -1;
+  var da = [], dp = [], ok = [], firstDiff = -1, exempt = 0;
   for (var j = 0; j < c.ops.length; j++){
     var op = c.ops[j], ra, rp, la = [], lp = [];
     curLog = la; try { ra = hop(A, op, recvA); } catch (e) { ra = herr(e); }
     curLog = lp; try { rp = hop(P, op, recvB); } catch (e) { rp = herr(e); }
+    if (lenNormExempt(c.target, A, op, ra, rp)){ exempt++; ra = rp = ra + "~length-normalised"; }
     ra = op.o + ":" + ra + "|" + la.join(","); rp = op.o + ":" + rp + "|" + lp.join(",");
     da.push(ra); dp.push(rp);
     if (ra !== rp && firstDiff < 0) firstDiff = j;
@@ -246,7 +261,7 @@ function runHist(cs, mkGo){
   var fa = "final:" + (firstDiff >= 0 ? "-" : hdump(A)), fb = "final:" + (firstDiff >= 0 ? "-" : hdump(B));
   da.push(fa); dp.push(fb);
   if (fa !== fb && firstDiff < 0) firstDiff = c.ops.length;
-  return JSON.stringify({direct: da, proxied: dp, mutated: ok.length, firstDiff: firstDiff}); }
+  return JSON.stringify({direct: da, proxied: dp, mutated: ok.length, firstDiff: firstDiff, exempt: exempt}); }
 function runRev(cs, mkGoRevoked){
   var c = JSON.parse(cs), t = hmk(c.target), p;
   nameOf = function(){ return "x"; }; curLog = [];
@@ -416,6 +431,7 @@ type histOut struct {
 	Proxied   []string `json:"proxied"`
 	Mutated   int      `json:"mutated"`
 	FirstDiff int      `json:"firstDiff"`
+	Exempt    int      `json:"exempt"`
 }
 
 func coqNList(ss []string) string {
@@ -451,6 +467,9 @@ func histRun(c HistCase) vh.Record {
 			seen[op.O] = true
 			tags = append(tags, "op="+op.O)
 		}
+	}
+	if o.Exempt > 0 {
+		tags = append(tags, "spec-exempt=array-length-normalised")
 	}
 	obs := fmt.Sprintf("%d ops, identical", len(c.Ops))
 	if o.FirstDiff >= 0 {
